@@ -36,6 +36,7 @@ func (u *upidSt) SetUPIDType(value SegUPIDType) {
 // SetUPID set the actual UPID
 func (u *upidSt) SetUPID(value []byte) {
 	u.upid = value
+	u.upidLen = len(value)
 }
 
 // SetComponentTag sets the component tag, which is used for the identification of the component.
